@@ -415,6 +415,17 @@ func runLiveCell(p *Program, step *ssa.Function, s refState, in liveInput, hs bo
 				if ts == nil || !o.St.sameInt(ts, sxts) {
 					fail("sysex delivered with time stamp %s, expected the time captured at its first byte", valString(e.Args[1]))
 				}
+				// content: the buffered bytes in order, then F7
+				wantSegs := []Seg{{Run: &Run{Src: "sx", Off: constTerm(0), Len: o.St.TermOf(L)}}, {Elems: []Val{mkConst(0xF7, 8, false)}}}
+				if why := segsDiffer(o.St, segs, wantSegs); why != "" {
+					fail("sysex delivered as %s, expected the %s buffered bytes followed by F7 (%s)", arrayStringIn(o.St, &ArrayV{Segs: segs}), L, why)
+				}
+				// and it must be a copy: the decoder keeps (or frees) its buffer, the receiver may keep the message
+				if bfv, _ := ex.getField(o.St, rp, "sysexBf"); bfv != nil {
+					if sl, _ := bfv.(*SliceV); sl != nil && !sl.Nil && !sl.Unk && sl.Obj == msg.Obj {
+						fail("the delivered sysex aliases the decoder's buffer")
+					}
+				}
 				continue
 			}
 			elems, flat := flatElems(segs)
@@ -502,8 +513,27 @@ func runLiveCell(p *Program, step *ssa.Function, s refState, in liveInput, hs bo
 				fail("sysex time stamp becomes %s, must be %s", valString(tsv), wt)
 			}
 			bfv, _ := ex.getField(o.St, rp, "sysexBf")
-			if sl, _ := bfv.(*SliceV); sl == nil || sl.Nil || !o.St.sameInt(sl.Len, N64) {
+			sl, _ := bfv.(*SliceV)
+			if sl == nil || sl.Nil || !o.St.sameInt(sl.Len, N64) {
 				fail("sysex buffer is not an N-byte buffer while a sysex is pending")
+			} else if hs && ln != nil {
+				// buffered content: F0 alone after a (re)start, otherwise the bytes buffered so far, plus the input byte if it was appended
+				var wantSegs []Seg
+				switch want.sxLen {
+				case "1":
+					wantSegs = []Seg{{Elems: []Val{mkConst(0xF0, 8, false)}}}
+				case "+1":
+					wantSegs = []Seg{{Run: &Run{Src: "sx", Off: constTerm(0), Len: o.St.TermOf(L)}}, {Elems: []Val{b}}}
+				default:
+					wantSegs = []Seg{{Run: &Run{Src: "sx", Off: constTerm(0), Len: o.St.TermOf(L)}}}
+				}
+				pre := &SliceV{Obj: sl.Obj, Path: sl.Path, Off: sl.Off, Len: ln, Cap: ln}
+				gotSegs, okG := ex.sliceSegs(o.St, pre)
+				if !okG {
+					fail("sysex buffer content not tracked")
+				} else if why := segsDiffer(o.St, gotSegs, wantSegs); why != "" {
+					fail("sysex buffer holds %s after the step, expected %s (%s)", arrayStringIn(o.St, &ArrayV{Segs: gotSegs}), arrayStringIn(o.St, &ArrayV{Segs: wantSegs}), why)
+				}
 			}
 		}
 	}
@@ -609,4 +639,43 @@ func liveSimulation(c *Ctx, ruleSim, rulePanic, ruleWell string, onlyWellFormedI
 	c.Extra["states"] = states
 	c.Extra["transitions"] = transitions
 	c.Extra["traces_validated_against_impl"] = 0
+}
+
+// segsDiffer compares two segment lists structurally in a state ("" = equal): same sequence of known elements
+// (pairwise equal) and opaque runs (same source, offset and length), zero-length runs ignored.
+func segsDiffer(st *State, got, want []Seg) string {
+	flat := func(segs []Seg) []interface{} {
+		var out []interface{}
+		for _, s := range st.dropEmptyRuns(segs) {
+			if s.Run != nil {
+				out = append(out, s.Run)
+				continue
+			}
+			for _, e := range s.Elems {
+				out = append(out, e)
+			}
+		}
+		return out
+	}
+	g, w := flat(got), flat(want)
+	if len(g) != len(w) {
+		return fmt.Sprintf("%d pieces instead of %d", len(g), len(w))
+	}
+	for i := range g {
+		switch x := g[i].(type) {
+		case *Run:
+			y, ok := w[i].(*Run)
+			if !ok || x.Src != y.Src || !termEq(x.Off, y.Off) || !termEq(x.Len, y.Len) {
+				return fmt.Sprintf("piece %d is not the expected run", i)
+			}
+		case Val:
+			y, ok := w[i].(Val)
+			xi, _ := x.(*IntV)
+			yi, _ := y.(*IntV)
+			if !ok || xi == nil || yi == nil || !st.sameInt(xi, yi) {
+				return fmt.Sprintf("byte %d differs", i)
+			}
+		}
+	}
+	return ""
 }
